@@ -24,6 +24,7 @@ EXPLANATION = (
     " Every WebSocketConfig literal leaves tungstenite's outbound limits at their defaults / usize::MAX or gives max_write_buffer_size at least the assumed limit + 14."
     " No Option-typed limit field is ordered with Option's own min / max / clamp / comparison anywhere in the crate (None, meaning no limit, sorts lowest); only that bug pattern is decided, not the arithmetic of a hand-written combination."
     ' A with_* setter of WebSocketLimits that rebuilds the value takes every field it does not set from self.'
+    ' In the in-place style a with_* setter stores exactly the field it is named after, from its parameter.'
 )
 ASSUMPTIONS = [
     "Message::into_wire_bytes / to_vec emit 48 + len(query) + len(body) bytes (C01 emission-normal-form)",
@@ -226,6 +227,20 @@ def run(facts, R):
                     "%s rebuilds the limits with %s = %s: a field it was not asked to set does not come from self (a limit configured earlier in the builder chain is lost)"
                     % (nm_, fname_, render(fv_)[:80]), cst_.get("span"), "%s = %s" % (fname_, "parameter" if own_ else "self." + fname_))
     R.note("boundary-table: WebSocketLimits setters that rebuild the value: %d" % n_set)
+    # ... and in the in-place style (`mut self`; self.f = v; self) a setter stores exactly the field it is named after, from its parameter
+    from analysis.guards import field_writes as _fw17
+    n_inpl = 0
+    for fld_ in LIMF:
+        for w_ in _fw17(facts, "websocket_limits::WebSocketLimits", fld_):
+            wb_ = w_["body"]
+            nm_ = wb_.path.rsplit("::", 1)[-1]
+            if not wb_.path.startswith("websocket_limits::WebSocketLimits::with_") or w_["kind"] != "store" or w_.get("whole"):
+                continue
+            n_inpl += 1
+            v_ = Sym(wb_).rvalue(w_["rv"])
+            R.check(nm_ == "with_" + fld_ and v_[0] == "arg" and v_[1] >= 2, "boundary-table", wb_.path, "a setter stores the field it is named after",
+                    "%s stores %s = %s: not the field the method names, or not its parameter" % (nm_, fld_, render(v_)[:60]), w_.get("span"), "self.%s = parameter" % fld_)
+    R.floor("boundary-table", n_inpl + n_set, 3, "WebSocketLimits setters judged")
 
     # ---------------- the transport below the guard refuses nothing the guard admitted: tungstenite rejects (WriteBufferFull, the
     # writer task ends, the connection closes) a frame - its 2..14 header bytes included - that does not fit `max_write_buffer_size`,
